@@ -351,6 +351,32 @@ def family(w, ws, tier):
     out += [OP("FLAG_EQ", k1)]
     for fl in spec.FLAGS3:
         out += [OP(fl, k1, k2, C(1, 1)), OP(fl, k1, k2, f1)]
+    # round 3 (reported next to seed C01-3): rules that recurse into the simplifier and then assume the result's shape; flags
+    # given as CONSTANTS to the condition codes; borrow chains whose low words are other operands; constant-first operands of
+    # the extension rules
+    if ws >= 2:
+        h = ws // 2
+        t = ID("t", h)
+        out += [OP("==", CO(ZX(t, ws), C(0, w - ws)), k1), OP("==", CO(SX(t, ws), C(0, w - ws)), k1),
+                OP("==", CO(OP("+", a, ks), C(0, w - ws)), k1), OP("==", CO(OP("^", a, ks), C(0, w - ws)), k1)]
+    nf, zf, of, cf = OP("FLAG_SIGN_SUB", A, B), OP("FLAG_EQ_CMP", A, B), OP("FLAG_SUB_OF", A, B), OP("FLAG_SUB_CF", A, B)
+    nf0 = OP("FLAG_SIGN_SUB", A, C(0, w))
+    for cc, n in spec.CC.items():
+        for bit in (0, 1):
+            kb = C(bit, 1)
+            if n == 1:
+                out += [OP(cc, kb)]
+            elif n == 2:
+                out += [OP(cc, nf, kb), OP(cc, kb, of), OP(cc, cf, kb), OP(cc, kb, zf), OP(cc, nf0, kb)]
+            else:
+                out += [OP(cc, nf, kb, zf), OP(cc, nf, of, kb), OP(cc, kb, of, zf), OP(cc, nf0, kb, OP("FLAG_EQ_CMP", A, C(0, w))),
+                        OP(cc, nf0, kb, OP("FLAG_EQ", A))]
+    D = ID("D", w)
+    for fl in spec.FLAGS3:
+        out += [OP(fl, A, B, OP("FLAG_SUB_CF", Cc, D)), OP(fl, A, B, OP("FLAG_ADD_CF", Cc, D)),
+                OP(fl, A, B, OP("FLAG_SUBWC_CF", Cc, D, f1))]
+    for op in ("smod", "sdiv", "umod", "udiv", "+", "&", "<s", "<u", "=="):
+        out += [OP(op, k1, SX(b, w)), OP(op, k1, ZX(b, w)), OP(op, SX(a, w), k1)]
     cfc = OP("FLAG_SUB_CF", A, B)
     for fl in spec.FLAGS3:
         out += [OP(fl, A, B, f1), OP(fl, A, B, cfc), OP(fl, A, k1, f1), OP(fl, A, B, C(0, 1)), OP(fl, A, B, C(1, 1))]
